@@ -12,6 +12,14 @@ func init() {
 	RegisterBuiltin("request-id", func(name string, cfg map[string]interface{}) (Middleware, error) {
 		return func(next http.Handler) http.Handler {
 			return http.HandlerFunc(func(w http.ResponseWriter, r *http.Request) {
+				// An identifier the request already carries (from the client, or from the logging
+				// middleware outside the chain) is kept: the backend and the client must see the same one.
+				if existing := r.Header.Get("X-Request-ID"); existing != "" {
+					w.Header().Set("X-Request-ID", existing)
+					next.ServeHTTP(w, r)
+					return
+				}
+
 				b := make([]byte, 16)
 				_, err := rand.Read(b)
 				if err != nil {
